@@ -656,6 +656,17 @@ class Channel(typing.ContextManager):
 
         s = s.encode("utf-8") if isinstance(s, str) else s
 
+        # Reject forbidden bytes before the first chunk is sent.  Otherwise the
+        # beginning of a long line would already have reached the remote side
+        # when a later chunk is refused, and would be prepended to whatever is
+        # sent next.
+        if not _ignore_blacklist:
+            for blacklisted in self._write_blacklist:
+                if blacklisted in s:
+                    raise tbot.error.IllegalDataException(
+                        f"attempted to write a forbidden byte ({chr(blacklisted)!r})"
+                    )
+
         start_time = time.monotonic()
 
         # Let's not overwhelm the channel-io by sending too much at once...
